@@ -216,6 +216,13 @@ public:
         for (auto& op : write_queue)
             op.complete(asio::error::try_again);
 
+        // An inbound QoS 2 exchange whose PUBCOMP was in the queue has just
+        // started to wait for its PUBREL again. If the session was lost
+        // the Broker will never re-send it, and the wait would capture the
+        // PUBREL of a new message that reuses the Packet Identifier.
+        if (std::exchange(_svc._session_lost, false))
+            _svc._replies.clear_pending_pubrels();
+
         // The quota is reset only after the loops above: an operation
         // cancelled by its caller completes there and returns quota
         // (throttled_op_done) that belongs to the previous connection.
